@@ -29,7 +29,15 @@ def log_pdf_to_affiliation(
 
     # The value of affiliation max may exceed float64 range.
     # Scaling (add in log domain) does not change the final affiliation.
-    affiliation = log_pdf - np.amax(log_pdf, axis=-2, keepdims=True)
+    if source_activity_mask is None:
+        affiliation = log_pdf - np.amax(log_pdf, axis=-2, keepdims=True)
+    else:
+        # Only active sources may determine the scaling. Otherwise, a much
+        # more likely inactive source lets all active sources underflow.
+        affiliation = np.where(source_activity_mask, log_pdf, -np.inf)
+        maximum = np.amax(affiliation, axis=-2, keepdims=True)
+        affiliation = affiliation - np.where(
+            np.isfinite(maximum), maximum, 0)
 
     np.exp(affiliation, out=affiliation)
 
